@@ -24,6 +24,8 @@ type schedState struct {
 	hostPanic interface{}
 	kill      bool
 	nondet    bool
+	budget    int
+	preempted int
 }
 
 func (e *Engine) sched() *schedState {
@@ -34,6 +36,10 @@ func (e *Engine) sched() *schedState {
 		s.gors = []*gor{main}
 		s.cur = main
 		s.nondet, _ = e.hostState["nondetSched"].(bool)
+		s.budget = 2
+		if b, ok := e.hostState["preemptBudget"].(int); ok {
+			s.budget = b
+		}
 		e.hostState["sched"] = s
 	}
 	return s
@@ -155,6 +161,11 @@ func (e *Engine) schedPoint() {
 	if len(runnable) < 2 {
 		return
 	}
+	// preemption bounding: at most s.budget forced switches per path; switches at blocking
+	// points are always explored (they are the only way to continue)
+	if s.preempted >= s.budget {
+		return
+	}
 	// order: current first so that decision 0 = keep running
 	k := e.chooseFree(len(runnable))
 	idx := 0
@@ -164,6 +175,9 @@ func (e *Engine) schedPoint() {
 		}
 	}
 	pick := runnable[(idx+k)%len(runnable)]
+	if pick != s.cur {
+		s.preempted++
+	}
 	e.switchTo(s, pick)
 }
 
